@@ -435,6 +435,10 @@ func ParentMain(chk Check, env Env) int {
 		}
 		wg.Wait()
 	}
+	var libcov map[string]interface{}
+	if env.Thorough || os.Getenv("VERIF_COVER") != "" {
+		libcov = p.coveragePass(maxw)
+	}
 	if f, ok := chk.(Finalizer); ok {
 		if err := f.Finalize(p); err != nil {
 			p.addInconclusive("finalize: " + err.Error())
@@ -508,6 +512,9 @@ func ParentMain(chk Check, env Env) int {
 			"worker_restarts":     p.restarts,
 			"phases":              phases,
 		},
+	}
+	if libcov != nil {
+		ev["coverage"].(map[string]interface{})["library_statement_coverage"] = libcov
 	}
 	if x, ok := chk.(interface{ Exhaustive(env Env) (bool, string) }); ok {
 		if yes, what := x.Exhaustive(env); yes {
@@ -655,4 +662,88 @@ func (p *Parent) AddTable(key string, n int64) {
 	p.mu.Lock()
 	p.merged.Tables[key] += n
 	p.mu.Unlock()
+}
+
+// coveragePass runs the quick-tier workload of the check once more under a
+// binary built with -cover and reports which statements of the library it
+// reached. It observes only: results of these workers are discarded.
+func (p *Parent) coveragePass(maxw int) map[string]interface{} {
+	bin := filepath.Join(Root, "bin", "verif-cover")
+	if _, err := os.Stat(bin); err != nil {
+		return map[string]interface{}{"note": "cover build not available"}
+	}
+	covDir := filepath.Join(p.WorkDir, "cov")
+	os.MkdirAll(covDir, 0o755)
+	qenv := Env{Seed: p.Seed, Tier: "quick"}
+	for phase, ph := range p.Chk.Phases(qenv) {
+		if ph.Race || ph.N == 0 {
+			continue
+		}
+		n := maxw
+		if ph.N < n {
+			n = ph.N
+		}
+		var wg sync.WaitGroup
+		for s := 0; s < n; s++ {
+			wg.Add(1)
+			go func(s int) {
+				defer wg.Done()
+				out := filepath.Join(p.WorkDir, fmt.Sprintf("cov-p%d-s%d", phase, s))
+				cmd := exec.Command(bin, "worker", p.Chk.ID(), strconv.Itoa(phase), strconv.Itoa(s), strconv.Itoa(n), "0", "-", out)
+				cmd.Env = append(os.Environ(), "VERIF_SEED="+strconv.FormatUint(p.Seed, 10), "VERIF_TIER=quick", "GOCOVERDIR="+covDir)
+				cmd.Run()
+			}(s)
+		}
+		wg.Wait()
+	}
+	cmd := exec.Command("go", "tool", "covdata", "func", "-i="+covDir, "-pkg=github.com/gregoryv/mq")
+	cmd.Env = append(os.Environ(), "GOFLAGS=-mod=mod", "GOPROXY=off", "GOSUMDB=off", "GOTOOLCHAIN=local")
+	outb, err := cmd.Output()
+	if err != nil {
+		return map[string]interface{}{"note": "go tool covdata failed: " + err.Error()}
+	}
+	total, reached := 0, 0
+	var unreached, partial []string
+	percent := ""
+	for _, line := range strings.Split(string(outb), "\n") {
+		f := strings.Fields(line)
+		if len(f) < 3 {
+			continue
+		}
+		if f[0] == "total" || strings.HasPrefix(line, "total") {
+			percent = f[len(f)-1]
+			continue
+		}
+		if strings.Contains(f[0], "verif_hooks.go") {
+			continue
+		}
+		total++
+		name := filepath.Base(strings.TrimSuffix(f[0], ":")) + " " + f[1]
+		switch pc := f[len(f)-1]; {
+		case pc == "0.0%":
+			unreached = append(unreached, name)
+		case pc != "100.0%":
+			reached++
+			partial = append(partial, name+" "+pc)
+		default:
+			reached++
+		}
+	}
+	os.RemoveAll(covDir)
+	nUnreached := len(unreached)
+	if len(unreached) > 80 {
+		unreached = append(unreached[:80], fmt.Sprintf("… and %d more", nUnreached-80))
+	}
+	if len(partial) > 60 {
+		partial = partial[:60]
+	}
+	return map[string]interface{}{
+		"functions_unreached_count": nUnreached,
+		"workload":            "quick-tier cases of this check, -cover build, -coverpkg=github.com/gregoryv/mq",
+		"statements":          percent,
+		"functions":           total,
+		"functions_reached":   reached,
+		"functions_unreached": unreached,
+		"functions_partial":   partial,
+	}
 }
